@@ -328,6 +328,23 @@ def main(argv=None):
             path = write_replay("bounded." + fn + "." + str(fl.get("key", "x")), rec)
             violations.append(("VIOLATION property=%s replay=%s" % (pid, path), spec["run"]))
 
+    # structural obligations (decided on the AST, no solver)
+    for spec in cfg.get("structural", []):
+        modname, fn = spec.split(":")
+        try:
+            for o in getattr(importlib.import_module(modname), fn)(REPO):
+                obligations += 1
+                per_obl.append(o)
+                if o["status"] == "proved":
+                    discharged += 1
+                else:
+                    rec = {"property": pid, "function": o["name"], "obligation": o["name"], "clause": o.get("note", ""),
+                           "solver": "AST inspection: the required lexical shape is absent", "input": None}
+                    path = write_replay(o["name"], rec)
+                    violations.append(("VIOLATION property=%s replay=%s no-failing-input-found" % (pid, path), o["name"]))
+        except Exception:
+            broken.append("structural check %s crashed: %s" % (spec, traceback.format_exc()[-1200:]))
+
     # Lean lemmas
     lean = []
     for lf in cfg.get("lean", []) + (cfg.get("lean_thorough", []) if tier == "thorough" else []):
